@@ -77,7 +77,9 @@ def plans(draw, stratum=None):
         spec["tasks"] = [t for t in spec["tasks"]][:2]
         vi = draw(st.integers(0, 1))
         spec["ext"] = [[vi, spec["tasks"][vi]["outs"][-1]]]
-        two_hosts = draw(st.booleans())
+        # two hosts with one worker each: there the scheduler runs the two tasks side by side; on one host with two workers it was
+        # seen to queue both on one worker, and the fault then never happens (counted inconclusive below)
+        two_hosts = draw(st.integers(0, 7)) != 0
         return {"job": spec, "hosts": 2 if two_hosts else 1, "workers": 1 if two_hosts else 2,
                 "fault": {"where": "task", "task": spec["tasks"][vi]["name"], "kind": "raise_late", "at": "before",
                           "stubborn": spec["tasks"][1 - vi]["name"]},
